@@ -22,15 +22,29 @@ import concurrent.futures
 import json
 import math
 import os
+import re
 
 from lib import core
 from lib.core import f2bits, bits2f
 
 DRIVER = "drv_phs"
-# C15_EXPECT=repaired: validate a tree that carries the proposed repairs notes/C15-fix-F36.diff + C15-fix-F130.diff: the oracles then
-# expect the repaired semantics (PHS list restored on every update, heuristic / measure over all pairs, false for a bound no PHS can
-# improve on) and the lines whose as-coded model necessarily differs are not lock-stepped.  Never set in a normal run.
-REPAIRED = os.environ.get("C15_EXPECT") == "repaired"
+# The model variant follows the TREE UNDER TEST: two later /repo fixes changed what PathLengthDirectInfSampler does, and the check
+# detects each in the source (so a revert of either runs against the pre-fix model and the independent oracle reports the old defect
+# as a VIOLATION — neither is a known finding any more):
+#   R36  (09980379c, was finding F36):  updatePhsDefinitions restores listPhsPtrs_ from allPhsPtrs_; heuristic / measure over all pairs
+#   R130 (5852532a8, was finding F130): the private sampleUniform returns false when the one PHS left cannot improve on maxCost
+def _tree_flags():
+    try:
+        src = open(os.path.join(core.REPO, "src/ompl/base/samplers/informed/src/PathLengthDirectInfSampler.cpp")).read()
+    except OSError:
+        return False, False
+    r36 = "listPhsPtrs_ = allPhsPtrs_;" in src and re.search(r"for \(const auto &phsPtr : allPhsPtrs_\)", src) is not None
+    r130 = re.search(r"listPhsPtrs_\.size\(\) == 1u\s*&&\s*!\(listPhsPtrs_\.front\(\)->getMinTransverseDiameter\(\) < maxCost\.value\(\)\)", src) is not None
+    return r36, r130
+
+
+R36, R130 = _tree_flags()
+HDR = "phs seed=%d" + (" restore=1" if R36 else "") + (" degfix=1" if R130 else "")
 LEAN_TARGETS = ["OmplModel.Props.C15", DRIVER]
 EPS = 2.220446049250313e-16
 TOL = 1e-12
@@ -488,7 +502,7 @@ def run_phs_scripts(ck, hbin, rng, nscripts, dims, per_dim, cmpst, tag="phs", ge
     for si in range(nscripts):
         r = rng.fork("%s%d" % (tag, si))
         news, ops, npx = (gen or gen_phs_script)(r, dims, per_dim)
-        hdr = "phs seed=%d" % (1 + r.below(10 ** 6))
+        hdr = HDR % (1 + r.below(10 ** 6))
         uops = [(j, m["k"], m["seed"]) for j, (_, m) in enumerate(ops) if m.get("kind") in ("usurf", "uball")]
         pre = [hdr] + news + ["probe %d" % k for k in range(npx)] + ["uprobe %d %d" % (kk, sd) for _, kk, sd in uops]
         out, rc, err = ck.run_bin(hbin, pre)
@@ -630,7 +644,7 @@ def smp_lockstep(ck, hbin, rng, tag, cmpst, nonmonotone=False):
     pairs = pairs_of(P)
     cmins = [dist(s, g) for s, g in pairs]
     iters = rng.choice([1, 2, 5, 20, 100])
-    hdr = "phs seed=%d" % (1 + rng.below(10 ** 6))
+    hdr = HDR % (1 + rng.below(10 ** 6))
     head = [hdr] + prob_lines(P) + ["mk direct %d %s" % (iters, f2bits(0.0))]
     out, rc, err = ck.run_bin(hbin, head + ["sprobe"])
     if not out or rc != 0 or not out[-1].startswith("sprobe"):
@@ -674,7 +688,7 @@ def smp_lockstep(ck, hbin, rng, tag, cmpst, nonmonotone=False):
     alive = list(range(len(pairs)))
     for c in costs:
         # python mirror of updatePhsDefinitions on the alive list
-        if REPAIRED:
+        if R36:
             alive = list(range(len(pairs)))
         new_alive = []
         sz = len(alive)
@@ -826,7 +840,7 @@ def judge_smp(ck, hbin, script, metas, P, cmpst, tag, nonmonotone):
             if d.get("has") != "0" or not relclose(bits2f(d["~m"]), tot):
                 f = "rejection sampler: informed measure %s has=%s, expected the space measure %r and has=0" % (d.get("~m"), d.get("has"), tot)
         elif kind == "hc":
-            want = min(focal(m["x"], *pairs[j]) for j in (range(len(pairs)) if REPAIRED else m["alive"]))
+            want = min(focal(m["x"], *pairs[j]) for j in (range(len(pairs)) if R36 else m["alive"]))
             if not relclose(bits2f(d["~h"]), want, TOL, m["S"]):
                 f = "heuristicSolnCost %r, best focal sum over the live PHSs %r" % (bits2f(d["~h"]), want)
         elif kind == "bh":
@@ -922,8 +936,6 @@ def judge_smp(ck, hbin, script, metas, P, cmpst, tag, nonmonotone):
                 bad += 1
                 if bad >= 3:
                     return bad
-        if REPAIRED and kind in ("upd", "hc", "im", "im2", "nin"):
-            continue
         mt = max([meas_tol(n, cmins[j], m["c"]) for j in m["alive"]] + [TOL]) if kind in ("upd", "im") and not m.get("strict") else TOL
         if kind == "im2":
             mt = 1e-6
@@ -1030,7 +1042,7 @@ def bulk_script(cfg, seed):
     P = cfg["P"]
     cs = "inf" if cfg["c"] == math.inf else f2bits(cfg["c"])
     op = "bulk %s %d" % (cs, cfg["N"]) if cfg["minc"] is None else "bulk3 %s %s %d" % (f2bits(cfg["minc"]), cs, cfg["N"])
-    return ["phs seed=%d" % seed] + prob_lines(P) + ["mk %s %d %s %d" % (cfg["sampler"], cfg["iters"], f2bits(0.0), cfg["batch"]),
+    return [HDR % seed] + prob_lines(P) + ["mk %s %d %s %d" % (cfg["sampler"], cfg["iters"], f2bits(0.0), cfg["batch"]),
                                                      "im %s" % f2bits(cfg["c"] if cfg["c"] < math.inf else 1e300), op]
 
 
@@ -1280,7 +1292,7 @@ def run_keep(ck, hbin, rng):
     c = 5.5
     N = 4000
     pts = [[0.0, 0.1], [0.0, -1.6], [-0.5, 3.0], [0.2, 1.0]]
-    script = ["phs seed=%d" % (1 + rng.below(10 ** 6))] + prob_lines(P) + ["mk direct 100 %s" % f2bits(0.0), "upd %s" % f2bits(c)] + \
+    script = [HDR % (1 + rng.below(10 ** 6))] + prob_lines(P) + ["mk direct 100 %s" % f2bits(0.0), "upd %s" % f2bits(c)] + \
              ["keep %d %s" % (N, vb(x)) for x in pts]
     out, rc, err = ck.run_bin(hbin, script)
     res = []
@@ -1310,13 +1322,13 @@ def run_exact(ck, hbin, cmpst):
     triangles, everything exact in binary) must be rejected by `<`, and accepted by the inclusive minCost test."""
     B = f2bits
     pts = [[0.0, 4.0], [0.0, -4.0], [5.0, 0.0], [-5.0, 0.0], [0.0, 4.0]]
-    head = ["phs seed=1", "space rv 2 %s %s" % (B(-10.0), B(10.0)), "starts 1 %s" % vb([-3.0, 0.0]), "goals 1 %s" % vb([3.0, 0.0])]
+    head = [HDR % 1, "space rv 2 %s %s" % (B(-10.0), B(10.0)), "starts 1 %s" % vb([-3.0, 0.0]), "goals 1 %s" % vb([3.0, 0.0])]
     rej = head + ["mk rej 5 %s" % B(0.0), "base 5 %s" % " ".join(vb(x) for x in pts), "su %s" % B(10.0),
                   "base 1 %s" % vb([0.0, 4.0]), "su3 %s %s" % (B(10.0), B(100.0)),
                   "base 1 %s" % vb([0.0, 3.999]), "su %s" % B(10.0)]
     want_rej = {6: ("found=0", "used=5"), 8: ("found=1", "used=1"), 10: ("found=1", "used=1")}
     q = [[0.0, 1.0], [0.0, -1.0], [1.25, 0.0], [0.0, 1.0]]
-    head2 = ["phs seed=1", "space rv 2 %s %s" % (B(-0.5), B(0.5)), "starts 1 %s" % vb([-0.75, 0.0]), "goals 1 %s" % vb([0.75, 0.0])]
+    head2 = [HDR % 1, "space rv 2 %s %s" % (B(-0.5), B(0.5)), "starts 1 %s" % vb([-0.75, 0.0]), "goals 1 %s" % vb([0.75, 0.0])]
     pre, rc, err = ck.run_bin(hbin, head2 + ["mk direct 4 %s" % B(0.0), "sprobe"])
     bad = 0
     if not pre or not pre[-1].startswith("sprobe"):
@@ -1387,7 +1399,7 @@ def run_seq(ck, hbin, cmpst, rng):
     bad = 0
     N = 1500 if ck.tier == "quick" else 10000
     for pi, (P, tri, seqs) in enumerate(seq_problems(rng)):
-        hdr = "phs seed=%d" % (1 + rng.fork("seq%d" % pi).below(10 ** 6))
+        hdr = HDR % (1 + rng.fork("seq%d" % pi).below(10 ** 6))
         head = [hdr] + prob_lines(P) + ["mk direct 100 %s" % f2bits(0.0)]
         pairs = pairs_of(P)
         cmin = dist(*pairs[0])
@@ -1461,7 +1473,7 @@ def run_sup(ck, hbin, cmpst, rng):
         rs = rng.fork("supscript%d" % si)
         dims = SUP_DIM_ORDERS[si % len(SUP_DIM_ORDERS)] if si < 4 else \
             [rs.choice([("rv", 2), ("rv", 3), ("rv", 4), ("rv", 5), ("rv", 6), ("se2", 2), ("se3", 3)]) for _ in range(6)]
-        hdr = "phs seed=%d" % (1 + rs.below(10 ** 6))
+        hdr = HDR % (1 + rs.below(10 ** 6))
         segs = []
         for pi, (kind_, n) in enumerate(dims):
             r = rs.fork("sup%d" % pi)
@@ -1561,12 +1573,12 @@ def run_sup(ck, hbin, cmpst, rng):
                     f = ("the call did not consume the draws of k <= numIters=%d iterations of samplePhsRejectBounds (uniform01, "
                          "uniformNormalVector of the PHS dimension %d, uniformReal, uniform01): its generator state matches no iteration count"
                          % (m["iters"], P["n"])) if used < 0 else "the call made %d iterations with numIters=%d" % (used, m["iters"])
-                elif d["found"] == "0" and used != m["iters"] and m["minc"] is None and not (REPAIRED and not m["c"] > min(sg["cmins"])):
+                elif d["found"] == "0" and used != m["iters"] and m["minc"] is None and not (R130 and not m["c"] > min(sg["cmins"])):
                     f = "failure reported after %d of %d iterations" % (used, m["iters"])
                 elif int(d["kept"]) < 0 or int(d["kept"]) > used:
                     f = "the rotation sub-sampler made a number of draws that matches no count of kept iterations (kept=%s, iterations=%d)" % (d["kept"], used)
-                elif REPAIRED and m["c"] < min(sg["cmins"]) * (1 - 1e-12) and (d["found"] != "0" or (used != 0 and m["minc"] is None)):
-                    f = "repaired tree: a bound no PHS can improve on must be answered false without sampling (got %s)" % o
+                elif R130 and m["c"] < min(sg["cmins"]) * (1 - 1e-12) and (d["found"] != "0" or (used != 0 and m["minc"] is None)):
+                    f = "a bound no PHS can improve on must be answered false without sampling (got %s)" % o
                 elif d["found"] == "1" and not m["c"] > min(sg["cmins"]):
                     xall = fvec(d["~x"])
                     h = min(focal(xall[:P["n"]], *p_) for p_ in pairs)
@@ -1591,8 +1603,8 @@ def run_sup(ck, hbin, cmpst, rng):
                 if ck.report({"engine": "phs", "class": fcls, "sampler": "direct", "what": f}, script=keep, observed=[o], expected=[f]):
                     ck.log("PHS-branch oracle failure (dimension order %s): %s" % (dims, f[:160]))
                     bad += 1
-            if not m["c"] > min(sg["cmins"]):
-                # whether a point of the focal segment passes `pathLength < cmin` is decided by the last ulp of Eigen's reduction: not lock-stepped
+            if not m["c"] > min(sg["cmins"]) and not (R130 and m["c"] < min(sg["cmins"]) * (1 - 1e-12)):
+                # without the early return (or exactly AT the focal distance) the outcome is decided by the last ulp of Eigen's reduction
                 ck.count("sup:degenerate-not-lock-stepped")
                 continue
             dd = cmpst.line(o, model[i] if i < len(model) else "<missing>", S)
@@ -1628,7 +1640,7 @@ def run_warm(ck, hbin, rng):
     N = 4000 if ck.tier == "quick" else 40000
     zmax = 8.0 if ck.tier == "quick" else 6.0
     seq = [("rv", 6), ("rv", 2), ("se3", 3), ("se2", 2), ("rv", 5), ("rv", 3), ("rv", 2)]
-    hdr = "phs seed=%d" % (1 + rng.below(10 ** 6))
+    hdr = HDR % (1 + rng.below(10 ** 6))
     script = [hdr]
     cfgs = []
     for kind, n in seq:
@@ -1708,7 +1720,7 @@ def run_ordered(ck, hbin, cmpst, rng):
         cmins = [dist(s_, g_) for s_, g_ in pairs]
         iters, batch = r.choice([1, 2, 5]), r.choice([1, 2, 3, 5])
         thr = r.choice([0.0, EPS])
-        hdr = "phs seed=%d" % (1 + r.below(10 ** 6))
+        hdr = HDR % (1 + r.below(10 ** 6))
         script = [hdr] + prob_lines(P) + ["mk ord-rej %d %s %d" % (iters, f2bits(thr), batch)]
         metas = [None] * (len(script) - 1)
         supplied = []
@@ -1859,6 +1871,7 @@ def run_corpus(ck, hbin, cmpst):
                 ck.log("corpus %s: %s" % (name, what))
                 bad += 1
             continue
+        script = [script[0] + HDR[len("phs seed=%d"):]] + script[1:]
         impl, rc, err, model = ck.run_pair(hbin, DRIVER, script)
         impl = impl or []
         ck.traces_validated += 1
@@ -1937,6 +1950,7 @@ def run(ck):
     if bad < 3:
         bad += run_bulk(ck, hbin, ck.rng.fork("bulk"))
     tot = cmpst.exact + cmpst.approx
+    ck.extra_cov["model_variant_selected_from_tree"] = {"restore_from_allPhsPtrs (fix 09980379c)": R36, "early_return_when_no_phs_can_improve (fix 5852532a8)": R130}
     ck.extra_cov["float_fields_compared"] = tot
     ck.extra_cov["float_fields_bit_exact"] = cmpst.exact
     ck.extra_cov["bit_exact_rate"] = round(cmpst.exact / float(tot), 4) if tot else None
@@ -2013,11 +2027,13 @@ MANIFEST = {
             "Tied to the code by lock-step runs of the real classes against the compiled model: ProlateHyperspheroid ops (dims 2-8, incl. successive diameters "
             "1 ulp apart on one object), updatePhsDefinitions / heuristic / inclusion counts / informed measures, the rejection loops with scripted base-sampler "
             "draws, the PHS-sampling branch (multi-PHS selection, 1/k rejection, re-test) with the sampler's private RNG draws replayed through an identically "
-            "seeded twin, the ordered sampler's queue, the wrapper; plus an oracle on ~10^6 sampled outputs per quick run.",
+            "seeded twin, the ordered sampler's queue, the wrapper; RNG::uniformProlateHyperspheroid[Surface] with replayed draws; SE(2)/SE(3) in the raw-draw lock-step (rotation "
+            "sub-sampler twinned too); the circle branch (start = goal); bounds at/below the focal distance; a start added after construction; plus an oracle on "
+            "~10^6 sampled outputs per quick run.",
     "note": "level: proof for geometry, measure and decision logic; sampled outputs for RNG uniformity (chi-square tests with loose thresholds), coverage and the "
             "compound-space (SE2/SE3) sampling paths. Trusted: Lean kernel, the three standard axioms, the hand-written model outside what the correspondence "
             "explored, Eigen's SVD for n >= 3 (orthonormality, first column and det = +1 checked per instance at 1e-9; n = 2 recomputed by the model), IEEE rounding "
-            "(modelled, not verified), the harness. Finding F36 (erased PHS never restored) stays.",
+            "(modelled, not verified), the harness. Findings F36 (erased PHS never restored; repair diff validated) and F130 (true returned for a bound no PHS can improve on; repair diff validated).",
     "technique": "Lean 4 proof (inner-product-space geometry, determinant/Haar measure of a linear image, Gamma recurrence, finite mixing argument, induction "
                  "over the sampler loops) + differential correspondence incl. RNG-twin replay + sampled-output oracle",
 }
